@@ -115,7 +115,8 @@ class JSONListFormatter(SequenceFormatter):
         instances where a list contains a dict.
 
         """
-        self.parent.print(*args, **kwargs)
+        # The node's own edit has already been dispatched by the time a node handler is selected; do not print it again
+        self.parent.print(*args, with_edits=False, **kwargs)
 
 
 class JSONDictFormatter(SequenceFormatter):
